@@ -16,10 +16,25 @@ F1 = [f"{V}({i})" for i in range(3)]
 def item_text(combo, subset, placement, first, entry):
     attrs = " ".join(M.render_attrs(combo, p_c05.KEY, p_c05.BY))
     fa, fb = (f"{attrs} f0: {V}", f"f1: {V}") if first else (f"f0: {V}", f"{attrs} f1: {V}")
-    body = f"{{ {fa}, {fb} }}"
-    item = f"pub struct Ty {body}" if placement == "struct" else f"pub enum Ty {{ V0 {body}, V1 }}"
+    # only PartialEq / PartialOrd derived: a third, float-like field (P(9) is its NaN) - values that are not equal to themselves
+    fc = f", f2: {PF}" if nan_field(subset) else ""
+    body = f"{{ {fa}, {fb}{fc} }}"
+    if placement == "struct":
+        item = f"pub struct Ty {body}"
+    elif placement == "enum":
+        item = f"pub enum Ty {{ V0 {body}, V1 }}"
+    else:
+        # explicit discriminants that decrease in declaration order: every derived order is still by declaration
+        item = f"#[repr(u8)] pub enum Ty {{ V0 {body} = 7, V1 = 3, V2({V}) = 5, V3 = 0 }}"
     tl = ", ".join(subset)
     return item, tl
+
+
+PF = "::dxrt::P"
+
+
+def nan_field(subset):
+    return all(t in ("PartialEq", "PartialOrd") for t in subset)
 
 
 def code_for(combo, subset, placement, first, entry):
@@ -28,9 +43,14 @@ def code_for(combo, subset, placement, first, entry):
     ctor = "Ty" if placement == "struct" else "Ty::V0"
     # the attributed field gets the 6-value domain (3 key classes), the plain one 3 values
     da, db = (F0, F1) if first else (F1, F0)
-    vals = [f"{ctor} {{ f0: {a}, f1: {b} }}" for a in da for b in db]
+    if nan_field(subset):
+        vals = [f"{ctor} {{ f0: {a}, f1: {b}, f2: {c} }}" for a in da[:4] + da[5:] for b in db[:2] for c in (f"{PF}(0)", f"{PF}(9)")]
+    else:
+        vals = [f"{ctor} {{ f0: {a}, f1: {b} }}" for a in da for b in db]
     if placement == "enum":
         vals.append("Ty::V1")
+    elif placement == "enumd":
+        vals += ["Ty::V1", f"Ty::V2({V}(0))", f"Ty::V2({V}(1))", "Ty::V3"]
     obs = [f"let vals: ::std::vec::Vec<Ty> = vec![{', '.join(vals)}];"]
     if "PartialEq" in subset:
         obs.append('let mut s = ::std::string::String::new(); for a in &vals { for b in &vals { s.push(::dxrt::bool_c(a == b)); } } ::dxrt::ev!("mat", "op" => "eq", "m" => s);')
@@ -128,7 +148,7 @@ def run(rep, tier, rng):
             # helper attributes of traits that are not derived are foreign attributes: outside this property
             if any(o != "-" and not any(t in sub for t in M.OWNS[a]) for a, o in zip(M.ATTRS, combo)):
                 continue
-            for placement in ("struct", "enum"):
+            for placement in ("struct", "enum", "enumd"):
                 first = (ci + si) % 2 == 0
                 entry = "attr" if (ci // 2 + si) % 2 == 0 else "derive"
                 item, tl = item_text(combo, sub, placement, first, entry)
